@@ -185,3 +185,17 @@ Definition member_texts (s : sys) (o : op) : list line :=
   | OPrintln b m => if is_member s b then text_lines m else []
   | _ => []
   end.
+
+(** [quiet s b h]: along the history [h] from state [s] no call is a draw step of bar [b], a silent
+    change of [b], or remove(b) - nothing touches [b] *)
+Section Quiet.
+  Variable W H : N.
+  Variable fails : N -> bool.
+  Fixpoint quiet (s : sys) (b : N) (h : list (N * op)) : Prop :=
+    match h with
+    | [] => True
+    | (now, o) :: r =>
+        (forall st, op_draw s now o <> Some (b, st)) /\ silent_change s now o b = false
+        /\ o <> ORemove b /\ quiet (step_sys W H fails s now o) b r
+    end.
+End Quiet.
